@@ -145,7 +145,7 @@ def execute(scn):
     n_polls = len(cf0.all("POLL"))
     n_att = len(cf0.attempts)
     n_sleeps = len(cf0.all("SLEEP_BEGIN"))
-    n_susp = len(cf0.all("SUSPEND"))
+    n_susp = len(cf0.all("YIELD"))
     has_abort = (scn.get("hooks") or {}).get("abort_if")
     digests = [digest(env0.trace)]
 
@@ -221,8 +221,7 @@ def execute(scn):
                 if trig is None:
                     viol.append(V("H1", "cancel plan did not fire", {"tag": tag, "entry": ent}))
                     continue
-                susp = next(e for e in cf.events if e["ev"] == "SUSPEND" and e["k"] == k)
-                at_t = trig["t"] + ((susp["us"] * frac // 100) if (susp["us"] > 0 and frac) else 0)
+                at_t = trig["t"] + trig.get("delay", 0)
                 check_cancel(scn, cf, viol, ent, tag, trig, None, at_t)
                 probes["cancel_points"] = probes.get("cancel_points", 0) + 1
     for e in env0.trace:
